@@ -142,7 +142,7 @@ def check_bookkeeping(ctx, db):
         for a in sp:
             n += 1
             wa = g.where_node(a)
-            ok = any(fl.id > a.id and g.postdominates(g.where_node(fl), wa) for fl in fills)
+            ok = any(fl.pos > a.pos and g.postdominates(g.where_node(fl), wa) for fl in fills)
             ctx.check(ok, 'R-PAIRCALL', label + '/spine.%s->fill' % a.callee.split('::')[-1], a.loc(), 'the spine mutation is followed on every path by fill_offsets_and_widths',
                       'the spine gains points here without fill_offsets_and_widths on every following path: elements no longer have one width/offset entry per spine point')
         if fills and f.name != 'commands':
@@ -209,7 +209,7 @@ def check_units(ctx, db):
     for f in (g, o):
         ec = [c for c in f.walk() if c.k == 'CXXMemberCallExpr' and (c.callee or '').endswith('::element_center')]
         ro = [c for c in f.walk() if c.k == 'CXXMemberCallExpr' and (c.callee or '').endswith('::remove_overlapping_points')]
-        ctx.check(len(ec) == 1 and len(ro) == 1 and ro[0].id < ec[0].id, 'R-SHAPE', '%s/centre-line' % f.qn.replace('gdstk::', ''), f.loc(), 'overlapping points are removed first and the PATH centre line comes from element_center')
+        ctx.check(len(ec) == 1 and len(ro) == 1 and ro[0].pos < ec[0].pos, 'R-SHAPE', '%s/centre-line' % f.qn.replace('gdstk::', ''), f.loc(), 'overlapping points are removed first and the PATH centre line comes from element_center')
     # to_polygons / to_gds entry: too-short paths are rejected, not written
     for f in (g, o, db.fn('gdstk::FlexPath::to_polygons')):
         t = norm(clone.canon(f.body, f))
